@@ -241,6 +241,8 @@ pub struct World {
     pub life_interactions: usize,
     /// wait_for calls of the current life
     pub waits_for: usize,
+    /// clock-advancing interactions of the current life
+    pub life_clock: usize,
     pub runaway: bool,
     pub crash_at: Option<usize>,
     pub crashed: bool,
@@ -272,6 +274,7 @@ impl World {
             interactions: 0,
             life_interactions: 0,
             waits_for: 0,
+            life_clock: 0,
             runaway: false,
             ping_storm: false,
             crash_at: None,
@@ -313,8 +316,16 @@ impl World {
             }
             self.mono_ns += step.advance_ns as i128;
             self.wall_ns += step.advance_ns as i128;
+            let mut stepped_back = false;
+            self.life_clock += 1;
+            if let Some((life, at, back)) = self.script.mono_back {
+                if life + 1 == self.life && at + 1 == self.life_clock {
+                    self.mono_ns -= (back as i128).min(self.mono_ns.max(0));
+                    stepped_back = true;
+                }
+            }
             self.log.now = (self.wall_ns, self.mono_ns);
-            if step.wall_jump.is_some() {
+            if step.wall_jump.is_some() || stepped_back {
                 self.log.push(Op::Clock { wall: self.wall_ns, mono: self.mono_ns });
             }
         }
